@@ -176,6 +176,10 @@ pub enum Den {
     Nested(Base),
     /// only `<port>/<channel>`
     TwoParts,
+    /// proper prefix, then `<base>/junk`: a denomination that merely STARTS with an escrowed one
+    Suffixed(Base),
+    /// proper prefix, then `<base>/`
+    TrailingSlash(Base),
 }
 impl Den {
     pub fn string(&self, ch: u8) -> String {
@@ -195,6 +199,8 @@ impl Den {
                 b.string()
             ),
             Den::TwoParts => format!("{}/{}", REMOTE_PORT, remote_chan(ch)),
+            Den::Suffixed(b) => format!("{}/{}/{}/junk", REMOTE_PORT, remote_chan(ch), b.string()),
+            Den::TrailingSlash(b) => format!("{}/{}/{}/", REMOTE_PORT, remote_chan(ch), b.string()),
         }
     }
 }
